@@ -712,6 +712,10 @@ pub fn supervisor_main(p: &Property, tier: Tier, extra: Option<&ExtraEvidence>) 
     }
 
     total.failures.sort_by_key(|f| f["msg"].as_str().map(|m| m.len()).unwrap_or(0));
+    {
+        let mut seen = HashSet::new();
+        total.failures.retain(|f| seen.insert(f["msg"].as_str().unwrap_or("").to_string()));
+    }
     let suppressed = total.failures.len().saturating_sub(5);
     total.failures.truncate(5);
     for f in &total.failures {
